@@ -121,6 +121,15 @@ fn play(rng: &mut Rng, r: &mut Report, rp: &dyn Fn() -> Json, continue_existing:
             }};
         }
         let choice = rng.below(12);
+        if rng.chance(1, 30) {
+            // the version may be set at any time; it never touches ids or the bound
+            let (ma, mi) = (rng.below(3) as u8, rng.below(8) as u8);
+            b.set_version(ma, mi);
+            log.push(format!("set_version({}, {})", ma, mi));
+            if b.verif_next_id() != next_before {
+                fail!("counter-changed:set_version", format!("set_version moved the id counter from {} to {}", next_before, b.verif_next_id()));
+            }
+        }
         if choice == 0 {
             // explicit id request
             let got = b.id();
